@@ -297,6 +297,90 @@ example : parseOpts [['m','e','t','a','d','a','t','a'], ['t','r','a','n','s','p'
     "transport=grpc+rest, metadata,zzz=1,foo=a=b,python-gapic-name=x_y".toList
     = [("transport".toList, "grpc+rest".toList), ("metadata".toList, "true".toList), ("name".toList, "x_y".toList)] := by decide
 
+/-! ### Repeated single-valued keys: which occurrence wins -/
+
+theorem values_append (a b : List (List Char × List Char)) (key : List Char) :
+    values (a ++ b) key = values a key ++ values b key := by
+  simp [values]
+
+theorem values_none (l : List (List Char × List Char)) (key : List Char) (h : ∀ p ∈ l, p.1 ≠ key) :
+    values l key = [] := by
+  simp only [values, List.map_eq_nil_iff, List.filter_eq_nil_iff, decide_eq_true_eq]
+  exact h
+
+/-- `.pop()`: the LAST occurrence of the key is read, whatever precedes it -/
+theorem lastValue_last_wins (pre post : List (List Char × List Char)) (key v dflt : List Char)
+    (hpost : ∀ p ∈ post, p.1 ≠ key) : lastValue (pre ++ (key, v) :: post) key dflt = v := by
+  have : values (pre ++ (key, v) :: post) key = values pre key ++ [v] := by
+    rw [values_append, show (key, v) :: post = [(key, v)] ++ post from rfl, values_append, values_none post key hpost]
+    simp [values]
+  simp [lastValue, this]
+
+/-- `[0]`: the FIRST occurrence of the key is read, whatever follows it -/
+theorem firstValue_first_wins (pre post : List (List Char × List Char)) (key v dflt : List Char)
+    (hpre : ∀ p ∈ pre, p.1 ≠ key) : firstValue (pre ++ (key, v) :: post) key dflt = v := by
+  have : values (pre ++ (key, v) :: post) key = v :: values post key := by
+    rw [values_append, values_none pre key hpre, show (key, v) :: post = [(key, v)] ++ post from rfl, values_append]
+    simp [values]
+  simp [firstValue, this]
+
+/-- **The last `name` wins**: for every list of parsed options, the name override `Options.build` returns is the value
+of the last `name` entry -/
+theorem name_override_last_wins (pre post : List (List Char × List Char)) (v : List Char)
+    (hpost : ∀ p ∈ post, p.1 ≠ keyName) : (answer (pre ++ (keyName, v) :: post)).name = v :=
+  lastValue_last_wins pre post keyName v [] hpost
+
+/-- likewise for `warehouse-package-name` -/
+theorem warehouse_name_last_wins (pre post : List (List Char × List Char)) (v : List Char)
+    (hpost : ∀ p ∈ post, p.1 ≠ keyWarehouse) : (answer (pre ++ (keyWarehouse, v) :: post)).warehouse = v :=
+  lastValue_last_wins pre post keyWarehouse v [] hpost
+
+/-- **The first `transport` wins** -/
+theorem transport_first_wins (pre post : List (List Char × List Char)) (v : List Char)
+    (hpre : ∀ p ∈ pre, p.1 ≠ keyTransport) : (answer (pre ++ (keyTransport, v) :: post)).transport = splitOn '+' v := by
+  show splitOn '+' (firstValue _ keyTransport _) = _
+  rw [firstValue_first_wins pre post keyTransport v _ hpre]
+
+/-- **The package directory is derived from the LAST `name` value** (and from all `namespace` values), for every
+option list and every inferred naming: `<namespace…>/<module of v>_<version>` -/
+theorem package_dir_from_last_name (i : Inferred) (pre post : List (List Char × List Char)) (v : List Char)
+    (hpost : ∀ p ∈ post, p.1 ≠ keyName) :
+    packageDir i (pre ++ (keyName, v) :: post) =
+      nsWith i ((answer (pre ++ (keyName, v) :: post)).nspace.map PyRt.lower) ++ [overriddenVersioned i v] := by
+  simp only [packageDir, name_override_last_wins pre post v hpost]
+
+theorem splitOn_no_sep (sep : Char) (opt : List Char) (h : sep ∉ opt) : splitOn sep opt = [opt] := by
+  induction opt with
+  | nil => rfl
+  | cons c cs ih =>
+    have hc : c ≠ sep := by intro e; apply h; simp [e]
+    have hcs : sep ∉ cs := by intro e; apply h; simp [e]
+    simp [splitOn, ih hcs, hc]
+
+/-- at the level of the option STRING: appending `,python-gapic-name=<v>` makes `<v>` the name override, whatever
+the string held before (earlier `python-gapic-name=` options included) -/
+theorem appended_name_wins (flags : List (List Char)) (s opt v : List Char) (hcomma : ',' ∉ opt)
+    (hkv : keyValue (strip opt) = (prefixGapic ++ keyName, v))
+    (hflag : flags.contains (prefixGapic ++ keyName) = false) :
+    (answer (parseOpts flags (s ++ ',' :: opt))).name = v := by
+  have hc : contributes flags opt = [(keyName, v)] := by
+    simp only [contributes, hkv, hflag]
+    simp [prefixGapic, keyName]
+  unfold parseOpts
+  rw [splitOn_append, List.flatMap_append, splitOn_no_sep ',' opt hcomma]
+  simp only [List.flatMap_cons, List.flatMap_nil, List.append_nil, hc]
+  exact name_override_last_wins _ [] v (by simp)
+
+/-- the hypotheses are met by real option strings, and the winners are as stated -/
+example :
+    let kv := parseOpts (Pinned.optFlags.map String.toList)
+      "python-gapic-name=lib,transport=rest,zzz=1,python-gapic-name=book_shelf,transport=grpc,python-gapic-namespace=org.acme".toList
+    (answer kv).name = "book_shelf".toList ∧ (answer kv).transport = ["rest".toList] ∧
+    keyValue (strip "python-gapic-name=book_shelf".toList) = (prefixGapic ++ keyName, "book_shelf".toList) ∧
+    (Pinned.optFlags.map String.toList).contains (prefixGapic ++ keyName) = false ∧
+    packageDir ⟨"acme".toList, "lib".toList, "v1".toList⟩ kv = ["org".toList, "acme".toList, "book_shelf_v1".toList] := by
+  decide +kernel
+
 /-- naming inference on concrete packages, evaluated by the regex engine on the pinned patterns -/
 theorem naming_examples :
     infer "acme.cloud.lib.v1".toList = some ⟨"acme.cloud".toList, "lib".toList, "v1".toList⟩ ∧
